@@ -21,12 +21,27 @@ type evaluator struct {
 	scope *ssa.BasicBlock
 	pkg   *ssa.Package
 	depth int
+	mode  int // +1: formula to be proved, -1: formula assumed, 0: no skolemization
+	pol   int // polarity of the current subformula (+1, -1, 0 unknown)
 }
 
 func (fr *Frame) eval(st *State, e *Expr, extra map[string]Val) (v Val, err error) {
-	ev := &evaluator{fr: fr, r: fr.r, st: st, old: fr.entry, extra: extra, bound: map[string]Val{}, pkg: fr.fn.Pkg}
-	if ev.pkg == nil && fr.fn.Parent() != nil {
-		ev.pkg = fr.fn.Parent().Pkg
+	return fr.evalMode(st, e, extra, -1)
+}
+
+// evalGoal evaluates a formula that is about to be proved: universal quantifiers in
+// positive positions and existential ones in negative positions become fresh constants.
+func (fr *Frame) evalGoal(st *State, e *Expr, extra map[string]Val) (v Val, err error) {
+	return fr.evalMode(st, e, extra, +1)
+}
+
+func (fr *Frame) evalMode(st *State, e *Expr, extra map[string]Val, mode int) (v Val, err error) {
+	ev := &evaluator{fr: fr, r: fr.r, st: st, old: fr.entry, extra: extra, bound: map[string]Val{}, mode: mode, pol: 1}
+	if fr.fn != nil {
+		ev.pkg = fr.fn.Pkg
+		if ev.pkg == nil && fr.fn.Parent() != nil {
+			ev.pkg = fr.fn.Parent().Pkg
+		}
 	}
 	return ev.evalTop(e)
 }
@@ -94,6 +109,12 @@ func (ev *evaluator) eval(e *Expr) Val {
 	case "id":
 		return ev.ident(e.Name)
 	case "un":
+		if e.Name == "!" {
+			ev.pol = -ev.pol
+			x := ev.eval(e.Args[0])
+			ev.pol = -ev.pol
+			return boolVal(sNot(x.S))
+		}
 		x := ev.eval(e.Args[0])
 		switch e.Name {
 		case "!":
@@ -128,6 +149,24 @@ func (ev *evaluator) eval(e *Expr) Val {
 		}
 		return Val{K: KSpec, Sort: x.Sort, S: sStore(x.S, ev.term(i), ev.term(v)), T: x.T}
 	case "forall", "exists":
+		if eff := ev.mode * ev.pol; ev.r.inQuant == 0 && ((e.Op == "forall" && eff == 1) || (e.Op == "exists" && eff == -1)) {
+			saved := map[string]Val{}
+			for _, bv := range e.Vars {
+				if old, ok := ev.bound[bv.Name]; ok {
+					saved[bv.Name] = old
+				}
+				ev.bound[bv.Name] = sortToVal(bv.Sort, r.facts.Fresh("sk_"+bv.Name, specSort(bv.Sort)))
+			}
+			body := ev.eval(e.Args[0])
+			for _, bv := range e.Vars {
+				if old, ok := saved[bv.Name]; ok {
+					ev.bound[bv.Name] = old
+				} else {
+					delete(ev.bound, bv.Name)
+				}
+			}
+			return body
+		}
 		saved := map[string]Val{}
 		var decls []string
 		for _, bv := range e.Vars {
@@ -140,7 +179,12 @@ func (ev *evaluator) eval(e *Expr) Val {
 			decls = append(decls, "("+n+" "+srt+")")
 			ev.bound[bv.Name] = sortToVal(bv.Sort, n)
 		}
-		body := ev.eval(e.Args[0])
+		ev.r.inQuant++
+		ev.r.facts.noDefine++
+		body := func() Val {
+			defer func() { ev.r.inQuant--; ev.r.facts.noDefine-- }()
+			return ev.eval(e.Args[0])
+		}()
 		for _, bv := range e.Vars {
 			if old, ok := saved[bv.Name]; ok {
 				ev.bound[bv.Name] = old
@@ -203,6 +247,12 @@ func (ev *evaluator) ident(name string) Val {
 			break
 		}
 		break // do not look into callers' scopes
+	}
+	if strings.HasPrefix(name, "rpos") {
+		key := fmt.Sprintf("it|%s|%s", ev.fr.inst, name[4:])
+		if _, ok := r.memSort[key]; ok {
+			return intVal(r.get(ev.st, key))
+		}
 	}
 	if srt, ok := r.eng.cs.Ghosts[name]; ok {
 		return sortToVal(srt, r.get(ev.st, "g|"+name))
@@ -416,8 +466,19 @@ func (ev *evaluator) binary(e *Expr) Val {
 	op := e.Name
 	switch op {
 	case "&&", "||", "==>", "<==>":
+		savedPol := ev.pol
+		switch op {
+		case "==>":
+			ev.pol = -savedPol
+		case "<==>":
+			ev.pol = 0
+		}
 		a := ev.eval(e.Args[0])
+		if op == "==>" {
+			ev.pol = savedPol
+		}
 		b := ev.eval(e.Args[1])
+		ev.pol = savedPol
 		if a.K != KBool || b.K != KBool {
 			ev.fail("boolean operator on non-boolean in %s", e)
 		}
@@ -432,8 +493,11 @@ func (ev *evaluator) binary(e *Expr) Val {
 			return boolVal("(= " + a.S + " " + b.S + ")")
 		}
 	case "==", "!=":
+		savedPol := ev.pol
+		ev.pol = 0
 		a := ev.eval(e.Args[0])
 		b := ev.eval(e.Args[1])
+		ev.pol = savedPol
 		var eq string
 		switch {
 		case e.Args[1].Op == "nil" || e.Args[0].Op == "nil":
@@ -570,9 +634,13 @@ func (ev *evaluator) call(e *Expr) Val {
 		if x.K == KSlice {
 			t = sApp("s_base", x.S)
 		}
-		return boolVal("(> " + t + " " + h0 + ")")
+		return boolVal("(> (root " + t + ") " + h0 + ")")
 	case "ite":
-		c, a, b := arg(0), arg(1), arg(2)
+		savedPol := ev.pol
+		ev.pol = 0
+		c := arg(0)
+		ev.pol = savedPol
+		a, b := arg(1), arg(2)
 		return r.iteVal(c.S, a, b)
 	case "typeis":
 		x := arg(0)
@@ -656,6 +724,20 @@ func (ev *evaluator) call(e *Expr) Val {
 	case "addr":
 		// addr(x.f): the place of a field, as a pointer value
 		return ev.place(e.Args[0])
+	case "lit_contains":
+		x := arg(0)
+		if e.Args[1].Op != "str" {
+			ev.fail("lit_contains needs a literal second argument")
+		}
+		for lit, t := range r.strLits {
+			if t == x.S {
+				return boolVal(fmt.Sprint(strings.Contains(lit, e.Args[1].Str)))
+			}
+		}
+		if x.S == "str_empty" {
+			return boolVal(fmt.Sprint(e.Args[1].Str == ""))
+		}
+		return boolVal(r.facts.Fresh("litc", "Bool"))
 	case "pkg":
 		if e.Args[0].Op != "str" {
 			ev.fail("pkg needs a string")
